@@ -59,10 +59,11 @@ Definition frames_of (t : wtask) : list frame :=
 
 (* ------------------------------------------------------------------------------------------ *)
 (* Uplinks *)
-Record uv := { uv_queued : bool; uv_synced : bool; uv_cur : body }.
+(* uv_cur = Some b: a value is waiting (b may be empty: the Recon text of Extant) *)
+Record uv := { uv_queued : bool; uv_synced : bool; uv_cur : option body }.
 Record us := { us_queued : bool; us_synced : bool; us_buf : list body }.
 Record um := { um_queued : bool; um_synced : bool; um_q : queue }.
-Definition uv0 : uv := {| uv_queued := false; uv_synced := false; uv_cur := [] |}.
+Definition uv0 : uv := {| uv_queued := false; uv_synced := false; uv_cur := None |}.
 Definition us0 : us := {| us_queued := false; us_synced := false; us_buf := [] |}.
 Definition um0 : um := {| um_queued := false; um_synced := false; um_q := empty_at 0 |}.
 
@@ -82,7 +83,7 @@ Fixpoint aget {A} (k : N) (m : list (N * A)) : option A :=
 Fixpoint aput {A} (k : N) (v : A) (m : list (N * A)) : list (N * A) :=
   match m with [] => [(k, v)] | (k', v') :: t => if k =? k' then (k, v) :: t else (k', v') :: aput k v t end.
 Fixpoint adel {A} (k : N) (m : list (N * A)) : list (N * A) :=
-  match m with [] => [] | (k', v') :: t => if k =? k' then t else (k', v') :: adel k t end.
+  match m with [] => [] | (k', v') :: t => if k =? k' then adel k t else (k', v') :: adel k t end.
 Definition aget_or {A} (d : A) (k : N) (m : list (N * A)) : A := match aget k m with Some v => v | None => d end.
 
 Definition special_lane (a : special) : N :=
@@ -121,7 +122,7 @@ Definition push_resp (u : uplinks) (l : N) (r : resp) : uplinks * option wtask :
     | RValue b =>
         let x := aget_or uv0 l (u_values u) in
         ({| u_writer := false;
-            u_values := aput l {| uv_queued := true; uv_synced := uv_synced x; uv_cur := b |} (u_values u);
+            u_values := aput l {| uv_queued := true; uv_synced := uv_synced x; uv_cur := Some b |} (u_values u);
             u_supplies := u_supplies u; u_maps := u_maps u;
             u_wq := enqueue (uv_queued x) KValue l (u_wq u); u_sq := u_sq u |}, None)
     | RSupply b =>
@@ -168,12 +169,15 @@ Fixpoint pop_wq (fuel : nat) (u : uplinks) : uplinks * option wtask :=
       | (KValue, l) :: rest =>
           match aget l (u_values u) with
           | Some x =>
-              ({| u_writer := false;
-                  u_values := aput l {| uv_queued := false; uv_synced := false; uv_cur := [] |} (u_values u);
-                  u_supplies := u_supplies u; u_maps := u_maps u; u_wq := rest; u_sq := u_sq u |},
-               Some {| wt_lane := l;
-                       wt_action := if uv_synced x then WValueSynced true (uv_cur x)
-                                    else WEvent (uv_cur x) |})
+              let u' := {| u_writer := false;
+                           u_values := aput l {| uv_queued := false; uv_synced := false; uv_cur := None |} (u_values u);
+                           u_supplies := u_supplies u; u_maps := u_maps u; u_wq := rest; u_sq := u_sq u |} in
+              match uv_synced x, uv_cur x with
+              | true, Some b => (u', Some {| wt_lane := l; wt_action := WValueSynced true b |})
+              | true, None => (u', Some {| wt_lane := l; wt_action := WValueSynced false [] |})
+              | false, Some b => (u', Some {| wt_lane := l; wt_action := WEvent b |})
+              | false, None => pop_wq f u'
+              end
           | None =>
               pop_wq f {| u_writer := false; u_values := u_values u; u_supplies := u_supplies u;
                           u_maps := u_maps u; u_wq := rest; u_sq := u_sq u |}
@@ -205,12 +209,18 @@ Fixpoint pop_wq (fuel : nat) (u : uplinks) : uplinks * option wtask :=
                     u_wq := rest; u_sq := u_sq u |},
                  Some {| wt_lane := l; wt_action := WMapSynced (Some (um_q x)) |})
               else
-                let (q', head) := pop (um_q x) in
-                let more := nonempty (events q') in
-                ({| u_writer := false; u_values := u_values u; u_supplies := u_supplies u;
-                    u_maps := aput l {| um_queued := more; um_synced := false; um_q := q' |} (u_maps u);
-                    u_wq := if more then rest ++ [(KMap, l)] else rest; u_sq := u_sq u |},
-                 Some {| wt_lane := l; wt_action := WMapEvent head |})
+                match pop (um_q x) with
+                | (q', Some head) =>
+                    let more := nonempty (events q') in
+                    ({| u_writer := false; u_values := u_values u; u_supplies := u_supplies u;
+                        u_maps := aput l {| um_queued := more; um_synced := false; um_q := q' |} (u_maps u);
+                        u_wq := if more then rest ++ [(KMap, l)] else rest; u_sq := u_sq u |},
+                     Some {| wt_lane := l; wt_action := WMapEvent (Some head) |})
+                | (q', None) =>
+                    pop_wq f {| u_writer := false; u_values := u_values u; u_supplies := u_supplies u;
+                                u_maps := aput l {| um_queued := false; um_synced := false; um_q := q' |} (u_maps u);
+                                u_wq := rest; u_sq := u_sq u |}
+                end
           | None =>
               pop_wq f {| u_writer := false; u_values := u_values u; u_supplies := u_supplies u;
                           u_maps := u_maps u; u_wq := rest; u_sq := u_sq u |}
@@ -335,10 +345,294 @@ Definition frame_eqb (a b : frame) : bool :=
   | _, _ => false
   end.
 
-Definition ucase := (N * list wop * list (list frame))%type.   (* number of lanes, operations, frames per op *)
+(* number of lanes, operations, frames written per op (at write completions), and per op the frames of
+   the write tasks it started, with their remote *)
+Definition ucase := (N * list wop * list (list frame) * list (list (N * list frame)))%type.
+
+(* The order in which unlink_all walks the links is the iteration order of a hash map: the frames of
+   different lanes may come out in another order than in the model.  The comparison is therefore by
+   remote and lane: for every remote, the concatenation of what its write completions wrote, projected
+   to each lane, must be identical. *)
+Definition frame_lane (f : frame) : N :=
+  match f with
+  | FLinked l | FSynced l | FUnlinked l _ | FEvent l _ | FMapEvent l _ => l
+  | FNotFound n => 1000 + n
+  end.
+
+Fixpoint frames_at (r : N) (ops : list wop) (outs : list (list frame)) : list frame :=
+  match ops, outs with
+  | ODone r' :: ops', fr :: outs' => (if r =? r' then fr else []) ++ frames_at r ops' outs'
+  | _ :: ops', _ :: outs' => frames_at r ops' outs'
+  | _, _ => []
+  end.
+
+Definition proj_lane (l : N) (fs : list frame) : list frame := filter (fun f => frame_lane f =? l) fs.
+
+Definition all_lanes : list N := [0; 1; 2; 3; 4; 5; 6; 7; 1007; 1008; 1009; 1010].
+Definition all_remotes : list N := [1; 2; 3; 4].
+
+Definition same_streams (ops : list wop) (a b : list (list frame)) : bool :=
+  Nat.eqb (length a) (length b) &&
+  forallb (fun r => forallb (fun l => outs_eqb frame_eqb (proj_lane l (frames_at r ops a)) (proj_lane l (frames_at r ops b)))
+                            all_lanes) all_remotes &&
+  (* nothing is written by an operation other than a write completion *)
+  forallb (fun p => match fst p with ODone _ => true | _ => match snd p with [] => true | _ => false end end)
+          (combine ops b).
 
 Definition up_corr_bad (cs : list (N * ucase)) : list N :=
-  map fst (filter (fun c => let '(nl, ops, outs) := snd c in
-                            negb (outs_eqb (outs_eqb frame_eqb) (wrun_u (wstate0 nl) ops) outs)) cs).
+  map fst (filter (fun c => let '(nl, ops, outs, _) := snd c in
+                            negb (same_streams ops (wrun_u (wstate0 nl) ops) outs)) cs).
 
-Definition up_oracle_bad (cs : list (N * ucase)) : list N := [].
+
+(* ------------------------------------------------------------------------------------------ *)
+(* Oracle on the implementation's frames, independent of the model above (C01 / C03 / C04 and the supply
+   part of C14, for one (remote, lane) pair at a time).
+   Requests are turned into tokens, kept per (remote, lane) in link epochs; frames are matched against
+   them:
+     - linked / unlinked frames: per epoch exactly the linked frames that were asked for (explicit or
+       implicit link requests), then - if the epoch was closed by an unlink, a lane removal or
+       unlink-all - one unlinked with that reason; events and synced only inside an epoch after its
+       first linked;
+     - a value event must be a value the lane produced for this remote in this epoch, in order
+       (older ones may be skipped); a supply event must be the next one, none skipped; a map event must
+       be a pending operation of its key (older ones of that key skipped, never across a clear), a clear
+       a pending clear; an event with an empty buffer that the lane never produced is fabricated;
+     - synced needs a pending sync answer, and nothing produced before that answer may still be
+       undelivered (the remote's view at synced is at least as new as the sync answer);
+     - at the end of the case (every write completed) an epoch that is still open has nothing pending. *)
+Inductive token := TVal (b : body) | TSup (b : body) | TMap (e : entry) | TSync.
+
+Record epoch := { ep_expected : nat; ep_seen : nat; ep_items : list token; ep_closed : option N }.
+
+Definition pl := (N * N)%type.                       (* (remote, lane) *)
+Definition ostate := list (pl * list epoch).
+
+Fixpoint oget (k : pl) (s : ostate) : list epoch :=
+  match s with [] => [] | (k', v) :: t => if pair_eqb k k' then v else oget k t end.
+Fixpoint oput (k : pl) (v : list epoch) (s : ostate) : ostate :=
+  match s with [] => [(k, v)] | (k', v') :: t => if pair_eqb k k' then (k, v) :: t else (k', v') :: oput k v t end.
+
+Definition is_open (es : list epoch) : bool :=
+  match rev es with e :: _ => match ep_closed e with None => true | Some _ => false end | [] => false end.
+
+(* request side *)
+Definition req_link (es : list epoch) : list epoch :=
+  match rev es with
+  | e :: r => match ep_closed e with
+              | None => rev r ++ [{| ep_expected := S (ep_expected e); ep_seen := ep_seen e; ep_items := ep_items e; ep_closed := None |}]
+              | Some _ => es ++ [{| ep_expected := 1; ep_seen := 0; ep_items := []; ep_closed := None |}]
+              end
+  | [] => [{| ep_expected := 1; ep_seen := 0; ep_items := []; ep_closed := None |}]
+  end.
+Definition req_item (es : list epoch) (t : token) : list epoch :=
+  match rev es with
+  | e :: r => match ep_closed e with
+              | None => rev r ++ [{| ep_expected := ep_expected e; ep_seen := ep_seen e; ep_items := ep_items e ++ [t]; ep_closed := None |}]
+              | Some _ => es
+              end
+  | [] => es
+  end.
+Definition req_close (es : list epoch) (msg : N) : list epoch :=
+  match rev es with
+  | e :: r => match ep_closed e with
+              | None => rev r ++ [{| ep_expected := ep_expected e; ep_seen := ep_seen e; ep_items := ep_items e; ep_closed := Some msg |}]
+              | Some _ => es
+              end
+  | [] => es
+  end.
+
+Definition token_of (rs : resp) : token :=
+  match rs with RSynced _ => TSync | RValue b => TVal b | RSupply b => TSup b | RMap e => TMap e end.
+
+(* frame side: matching inside the items of the current epoch; None = violation.  Frames are presented to
+   the oracle at the moment their write task was created (the harness attributes what a task wrote to the
+   operation that started it), so the items are exactly what had been produced when the content of the
+   task was decided. *)
+Definition is_sync (t : token) : bool := match t with TSync => true | _ => false end.
+Definition is_val (t : token) : bool := match t with TVal _ => true | _ => false end.
+Definition is_map (t : token) : bool := match t with TMap _ => true | _ => false end.
+
+Fixpoint last_val (its : list token) (acc : option body) : option body :=
+  match its with [] => acc | TVal b :: t => last_val t (Some b) | _ :: t => last_val t acc end.
+
+(* a value event carries the newest value produced so far: never a stale one *)
+Definition match_val (b : body) (its : list token) : option (list token) :=
+  match last_val its None with
+  | Some b' => if body_eqb b b' then Some (filter (fun t => negb (is_val t)) its) else None
+  | None => None
+  end.
+(* a supply event is the oldest one not yet delivered *)
+Fixpoint match_sup (b : body) (its : list token) : option (list token) :=
+  match its with
+  | TSup b' :: t => if body_eqb b b' then Some t else None
+  | TSync :: t => option_map (cons TSync) (match_sup b t)
+  | _ => None
+  end.
+Definition ekey (e : entry) : option N := option_map fst (entry_key e).
+Definition is_clear (t : token) : bool := match t with TMap EClear => true | _ => false end.
+(* what is left after the last clear (sync answers are kept) *)
+Fixpoint after_last_clear (its : list token) (acc : list token) : list token :=
+  match its with
+  | [] => acc
+  | TMap EClear :: t => after_last_clear t (filter is_sync acc)
+  | x :: t => after_last_clear t (acc ++ [x])
+  end.
+Definition same_key (e : entry) (t : token) : bool :=
+  match t with
+  | TMap e' => match ekey e, ekey e' with Some a, Some b => a =? b | _, _ => false end
+  | _ => false
+  end.
+(* the last operation of e's key before the first pending clear; and the items without that key's
+   operations up to that clear *)
+Fixpoint last_of_key (e : entry) (its : list token) (acc : option entry) : option entry :=
+  match its with
+  | [] => acc
+  | TMap EClear :: _ => acc
+  | TMap e' :: t => if same_key e (TMap e') then last_of_key e t (Some e') else last_of_key e t acc
+  | _ :: t => last_of_key e t acc
+  end.
+Fixpoint drop_key (e : entry) (its : list token) : list token :=
+  match its with
+  | [] => []
+  | TMap EClear :: t => its
+  | x :: t => if same_key e x then drop_key e t else x :: drop_key e t
+  end.
+(* a keyed map event carries the newest pending operation of its key (nothing crosses a clear) *)
+Definition match_keyed (e : entry) (its : list token) : option (list token) :=
+  match last_of_key e its None with
+  | Some e' => if entry_eqb e e' then Some (drop_key e its) else None
+  | None => None
+  end.
+Definition match_map (e : entry) (its : list token) : option (list token) :=
+  match e with
+  | EClear => if existsb is_clear its then Some (after_last_clear its []) else None
+  | _ => match_keyed e its
+  end.
+(* synced answers every sync answer pending; on value and map lanes nothing produced may still be
+   undelivered at that moment *)
+Definition match_sync (its : list token) : option (list token) :=
+  if existsb is_sync its && negb (existsb (fun t => is_val t || is_map t) its)
+  then Some (filter (fun t => negb (is_sync t)) its) else None.
+Definition match_sync_sup (its : list token) : option (list token) :=
+  if existsb is_sync its then Some (filter (fun t => negb (is_sync t)) its) else None.
+
+Definition with_cur (es : list epoch) (f : epoch -> option epoch) : option (list epoch) :=
+  match es with
+  | e :: r => option_map (fun e' => e' :: r) (f e)
+  | [] => None
+  end.
+
+Definition set_items (e : epoch) (its : list token) : epoch :=
+  {| ep_expected := ep_expected e; ep_seen := ep_seen e; ep_items := its; ep_closed := ep_closed e |}.
+
+Definition frame_step (kind_of : N -> kind) (es : list epoch) (f : frame) : option (list epoch) :=
+  match f with
+  | FLinked _ =>
+      with_cur es (fun e => if Nat.ltb (ep_seen e) (ep_expected e)
+                            then Some {| ep_expected := ep_expected e; ep_seen := S (ep_seen e);
+                                         ep_items := ep_items e; ep_closed := ep_closed e |}
+                            else None)
+  | FUnlinked _ m =>
+      match es with
+      | e :: r => match ep_closed e with
+                  | Some m' => if (m =? m') && Nat.eqb (ep_seen e) (ep_expected e) then Some r else None
+                  | None => None
+                  end
+      | [] => None
+      end
+  | FEvent l b =>
+      with_cur es (fun e => if Nat.ltb 0 (ep_seen e)
+                            then option_map (set_items e)
+                                   (match kind_of l with KSupply => match_sup b (ep_items e) | _ => match_val b (ep_items e) end)
+                            else None)
+  | FMapEvent _ (Some en) =>
+      with_cur es (fun e => if Nat.ltb 0 (ep_seen e) then option_map (set_items e) (match_map en (ep_items e)) else None)
+  | FMapEvent _ None => None
+  | FSynced l =>
+      with_cur es (fun e => if Nat.ltb 0 (ep_seen e)
+                            then option_map (set_items e)
+                                   (match kind_of l with KSupply => match_sync_sup (ep_items e) | _ => match_sync (ep_items e) end)
+                            else None)
+  | FNotFound _ => Some es
+  end.
+
+Definition lanes_kind (l : N) : kind :=
+  match l with 1 => KSupply | 2 => KMap | _ => KValue end.
+
+Fixpoint frames_step (r : N) (dead : list N) (s : ostate) (fs : list frame) : option ostate :=
+  match fs with
+  | [] => Some s
+  | f :: t =>
+      if existsb (N.eqb r) dead then Some s else
+      match f with
+      | FNotFound _ => frames_step r dead s t
+      | _ =>
+          let k := (r, frame_lane f) in
+          match frame_step lanes_kind (oget k s) f with
+          | Some es' => frames_step r dead (oput k es' s) t
+          | None => None
+          end
+      end
+  end.
+
+Definition apply_to_links (s : ostate) (p : pl -> bool) (f : list epoch -> list epoch) : ostate :=
+  map (fun kv => if p (fst kv) then (fst kv, f (snd kv)) else kv) s.
+
+(* [have]: remotes added so far; [dead]: remotes removed *)
+Definition req_step (nl : N) (s : ostate) (have dead : list N) (o : wop) : ostate * list N * list N :=
+  match o with
+  | OAddRemote r => (s, r :: have, dead)
+  | OLink r name =>
+      if (name <? nl) && existsb (N.eqb r) have && negb (existsb (N.eqb r) dead)
+      then (oput (r, name) (req_link (oget (r, name) s)) s, have, dead)
+      else (s, have, dead)
+  | OUnlink r name =>
+      if (name <? nl) && is_open (oget (r, name) s)
+      then (oput (r, name) (req_close (oget (r, name) s) 0) s, have, dead)
+      else (s, have, dead)
+  | OUnknown _ _ => (s, have, dead)
+  | OEvent lane (Some r) rs =>
+      let es := oget (r, lane) s in
+      let es1 := if is_open es then es else req_link es in
+      (oput (r, lane) (req_item es1 (token_of rs)) s, have, dead)
+  | OEvent lane None rs =>
+      (apply_to_links s (fun k => (snd k =? lane)) (fun es => req_item es (token_of rs)), have, dead)
+  | ODone _ => (s, have, dead)
+  | ORemoveLane lane => (apply_to_links s (fun k => (snd k =? lane)) (fun es => req_close es 1), have, dead)
+  | OUnlinkAll => (apply_to_links s (fun _ => true) (fun es => req_close es 1), have, dead)
+  | ORemoveRemote r => (s, have, r :: dead)
+  end.
+
+Fixpoint started_step (dead : list N) (s : ostate) (st : list (N * list frame)) : option ostate :=
+  match st with
+  | [] => Some s
+  | (r, fs) :: t => match frames_step r dead s fs with Some s' => started_step dead s' t | None => None end
+  end.
+
+Fixpoint up_oracle (fc : bool) (nl : N) (s : ostate) (have dead : list N) (ops : list wop)
+         (started : list (list (N * list frame))) : bool :=
+  match ops, started with
+  | [], [] =>
+      (* quiescent: an open epoch of a live remote has nothing pending and all its linked frames came;
+         a closed one has had its unlinked *)
+      negb fc || forallb (fun kv => existsb (N.eqb (fst (fst kv))) dead ||
+                         match snd kv with
+                         | [] => true
+                         | [e] => match ep_closed e with
+                                  | None => Nat.eqb (ep_seen e) (ep_expected e) &&
+                                            match ep_items e with [] => true | _ => false end
+                                  | Some _ => false
+                                  end
+                         | _ => false
+                         end) s
+  | o :: ops', st :: started' =>
+      let '(s1, have', dead') := req_step nl s have dead o in
+      match started_step dead' s1 st with
+      | Some s2 => up_oracle fc nl s2 have' dead' ops' started'
+      | None => false
+      end
+  | _, _ => false
+  end.
+
+Definition up_oracle_bad (cs : list (N * ucase)) : list N :=
+  map fst (filter (fun c => let '(nl, ops, _, started) := snd c in negb (up_oracle true nl [] [] [] ops started)) cs).
